@@ -29,7 +29,7 @@ fn jobs(plan: &Plan) -> Vec<Job> {
     v.push(standalone("slice<mirror<usize>,optimized>", "exhaustive", 0, |c| exhaustive_slice::<SliceRegion<MirrorRegion<usize>, IO>, usize>(c)));
     v.push(standalone("slice<mirror<usize>,list>", "exhaustive", 0, |c| exhaustive_slice::<SliceRegion<MirrorRegion<usize>, IL>, usize>(c)));
     v.push(standalone("huffman<u8>", "exhaustive", 0, exhaustive_huffman));
-    for h in 0..t.pick(20, 600, 1) {
+    for h in 0..t.pick(150, 600, 1) {
         v.push(standalone("slice<mirror<u8>>", "random", h, |c| random_slice::<SliceRegion<MirrorRegion<u8>>, u8>(c)));
         v.push(standalone("slice<string>", "random", h, |c| random_slice::<SliceRegion<StringRegion>, String>(c)));
         v.push(standalone("slice<slice<string>>", "random", h, |c| random_slice::<SliceRegion<SliceRegion<StringRegion>>, Vec<String>>(c)));
